@@ -797,25 +797,34 @@ func (parser *Parser) parseOperand(depth int) (Sexp, error) {
 		if err != nil {
 			return SexpEnd, err
 		}
-		if tok.typ != TokenEnd {
-			break
-		}
-		if depth == 0 {
-			flushed, err := lexer.flushAtEnd()
-			if err != nil && err != ErrMoreInputNeeded {
-				return SexpEnd, err
+		if tok.typ == TokenEnd {
+			if depth == 0 {
+				flushed, err := lexer.flushAtEnd()
+				if err != nil && err != ErrMoreInputNeeded {
+					return SexpEnd, err
+				}
+				if flushed {
+					continue
+				}
 			}
-			if flushed {
-				continue
+			parser.sendMe.Err = ErrMoreInputNeeded
+			ok := parser.yield(parser.sendMe)
+			if !ok {
+				return SexpEnd, ParserHaltRequested
 			}
+			continue
 		}
-		parser.sendMe.Err = ErrMoreInputNeeded
-		ok := parser.yield(parser.sendMe)
-		if !ok {
-			return SexpEnd, ParserHaltRequested
+		expr, err := parser.ParseExpression(depth + 1)
+		if err != nil {
+			return SexpEnd, err
 		}
+		if _, isComment := expr.(*SexpComment); isComment {
+			// a comment between the operator and its operand is
+			// white space, not the operand.
+			continue
+		}
+		return expr, nil
 	}
-	return parser.ParseExpression(depth + 1)
 }
 
 func (parser *Parser) ParserPeekNextToken(extra int) (tok Token, err error) {
